@@ -70,6 +70,38 @@ def arm_target(crate, body):
 
 def is_err_opcode(crate, body, scrut_names):
     """catch-all arm must return Err(ExpectedOpcodeError::Opcode carrying the scrutinee)"""
+    if _is_err_opcode_shape(crate, body, scrut_names):
+        return True
+    return _is_err_opcode_sem(crate, body, scrut_names)
+
+
+def _is_err_opcode_sem(crate, body, scrut_names):
+    """the arm interpreted with the scrutinee bound to a witness value (helper functions inlined): the result must be
+    Err(ExpectedOpcodeError::Opcode ..) whose opcode is that value"""
+    from .facts import facts
+    from .minieval import Mini, Unsupported, Panic
+    W = 0xBEEF
+    try:
+        m = Mini({crate: facts(crate)}, crate)
+        m.overrides = {"::opcode_to_name": lambda a: "name"}
+        frame = {}
+        for x in H.walk(body):
+            if H.tag(x) == "local":
+                frame[x[1]] = W if x[1] in scrut_names else ("opaque", x[1])
+        res = m.ev(body, [frame])
+    except (Unsupported, Panic, KeyError, TypeError, IndexError, AttributeError):
+        return False
+    if not (isinstance(res, tuple) and len(res) == 2 and res[0] == "Err" and isinstance(res[1], tuple) and res[1]):
+        return False
+    e = res[1]
+    if e[0] == "struct" and str(e[1]).endswith("ExpectedOpcodeError::Opcode") and isinstance(e[2], dict):
+        return e[2].get("opcode") == W
+    if e[0] == "variant" and str(e[1]).endswith("ExpectedOpcodeError::Opcode") and len(e) > 2:
+        return list(e[2])[:1] == [W]
+    return False
+
+
+def _is_err_opcode_shape(crate, body, scrut_names):
     b = H.strip(body)
     if not (H.tag(b) == "call" and (H.call_path(b) or "").endswith("::Err") and len(H.call_args(b)) == 1):
         return False
